@@ -719,7 +719,7 @@ func applyBuiltin(name string, a []interface{}) (interface{}, error) {
 		}
 		var res int64
 		for _, c := range comps {
-			res = res*10000 + c
+			res = res*refVersionBase + c
 		}
 		return res, nil
 	case "date", "datetime", "t_time", "t_date", "td_time", "td_date":
@@ -765,6 +765,15 @@ func applyBuiltin(name string, a []interface{}) (interface{}, error) {
 	}
 	panic("ref: unknown operator " + name)
 }
+
+// refVersionBase is the radix of the version encoding. The README documents
+// the encoding only as "a specially formatted number", and C19 asks for order
+// preservation, not for a particular radix - so the radix is read off the
+// engine once per process (calibrateRef) and the reference then demands that
+// every version is the polynomial in that radix. Anything below 10000 (which
+// cannot preserve order for components up to 9999) or a non-polynomial answer
+// leaves the default, so that such an engine disagrees with the reference.
+var refVersionBase int64 = 10000
 
 // versionComponents: the first n dot-separated components (missing = 0);
 // ok=false if one of the first n present components is not a number in 0..9999.
